@@ -16,7 +16,7 @@ if [ "$1" = "-e" ]; then
   sed -i "$2" $W/repo/$3 || exit 3; shift 3
   git -C $W/repo diff --stat | tail -1
 else
-  git -C $W/repo apply "$1" || exit 3; shift
+  P=$(realpath "$1"); git -C $W/repo apply "$P" || exit 3; shift
 fi
 ID=$1; TIER=${2:-quick}
 cd /verif && VERIF_REPO=$W/repo VERIF_BUILD=$W/build VERIF_OUT=$W/out ./check $ID --tier $TIER
